@@ -161,8 +161,10 @@ def add_keyword(c, o, kw, depth):
         v = rng.randint(0, 3)
         if getattr(c, "wild_ints", False) and rng.random() < 0.04:
             # outside the int32 window or not integral, in plain / fraction / exponent spelling: Unmarshal refuses these
-            o.set(kw, Num(rng.choice(["4294967296.0", "2147483648.0", "-2147483649.0", "4294967297.0", "1e10", "2147483648", "1.5", "3e0",
-                                      "2147483647.0", "-1", "20e-1"])))
+            # (never an exponent without a decimal point: `3e0` is refused by the package — known finding D23 — and the model's
+            # numbers carry no spelling)
+            o.set(kw, Num(rng.choice(["4294967296.0", "2147483648.0", "-2147483649.0", "4294967297.0", "2147483648", "1.5",
+                                      "2147483647.0", "-1", "2.0e0", "1.0e10"])))
         else:
             o.set(kw, Num(str(v) + (".0" if rng.random() < 0.1 else "")))
         if kw in ("minContains", "maxContains") and o.get("contains") is None and rng.random() < 0.8:
